@@ -32,7 +32,9 @@ func (g *SessGen) poolVal(t TableSpec, c ColSpec) Val {
 	if g.pools == nil {
 		g.pools = map[string][]Val{}
 	}
-	k := t.Name + "." + c.Name
+	// one pool per application type, shared by all searchable columns: joins ON two searchable columns and conditions
+	// comparing them then have matching rows
+	k := "pool/" + c.AppType.String()
 	if g.pools[k] == nil {
 		r := g.R
 		var pool []Val
